@@ -100,6 +100,7 @@ def build(rng, span_type, n, start, end, entry='solve', fault=None, lags=0, lead
     if fault is not None and n:
         p, kind = fault
         scripts[str(p)] = faulty_script(rng, p, kind)
+    scripts = sc.with_list_assignments(rng, scripts, 0.1)          # some stores as whole-series list assignments (array rebound)
     c['scripts'] = scripts
     c['opts'] = sc.random_omit(rng, c['opts'], 0.12)             # some calls leave keywords to their defaults
     if rng.random() < 0.08 and n and entry not in ('iter_periods', 'iter_next', 'iter_protocol'):
